@@ -94,7 +94,13 @@ fn history(em: &mut Emit, rng: &mut Rng, steps: usize, hid: u64) {
         let depth = 1 + rng.below(5) as u32;
         let src = {
             let mut g = Gen { rng, vars: tys.clone(), idfns: vec!["idf".to_string()], wrap_pct: 8, boundary_pct: 20, macros: true };
-            if concat {
+            if g.rng.chance(1, 12) {
+                // library calls with state of their own to misuse: regular expressions, valid and
+                // invalid, repeated within one history (the model leaves non-literal patterns
+                // uninterpreted; the repetition law below does not)
+                g.rng.pick(&["'foobar'.matches('(foo')", "vs0.matches('[a')", "'ab'.matches('a+')", "'foobar'.matches('(foo')",
+                             "'x'.matches('*')", "'abc'.matches('^a.c$')", "vs0.matches('(foo')", "'ab'.matches('ab')"]).to_string()
+            } else if concat {
                 concat_program(&mut g, depth)
             } else {
                 let t = g.rand_ty(1);
